@@ -172,6 +172,44 @@ def rule_k3(chk: Check, F, ir, thorough: bool):
                     f"`{a}` must be tried before `{b}` ({why}); order is {order}")
 
 
+def rule_k6(chk: Check, F, ix: Index, thorough: bool):
+    """Backslash-continued one-quote strings: the continuation test must hold for LF and CRLF line ends alike (finite-domain
+    evaluation); and a search path has a unique end (an escaped backtick does not end it)."""
+    import copy
+    f = ix.get("TokenizerState.in_continued_string")
+    rets = [n for n in own_nodes(f.node) if isinstance(n, ast.Return)]
+    chk.count("K6-continuation")
+    if len(rets) != 1:
+        chk.fail("K6-continuation", "in_continued_string", f.where, "continuation test is no longer a single expression")
+    else:
+        class Sub(ast.NodeTransformer):
+            def visit_Attribute(self, node):
+                s0 = norm_stmt(node)
+                if s0 == "self.line":
+                    return ast.copy_location(ast.Name("_line", ast.Load()), node)
+                if s0 == "self.end_progs":
+                    return ast.copy_location(ast.Name("_ep", ast.Load()), node)
+                return self.generic_visit(node)
+        expr = Sub().visit(copy.deepcopy(rets[0].value))
+        ast.fix_missing_locations(expr)
+        cases = {"'abc\\\n": True, "'abc\\\r\n": True, "'abc\n": False, "'abc\r\n": False, "'abc": False, "\\\n": True, "x\\ \n": False}
+        bad = []
+        for line, want in cases.items():
+            got = bool(constfold.fold_expr(expr, {"_line": line, "_ep": (1,)}))
+            if got != want:
+                bad.append((line, got))
+        off = bool(constfold.fold_expr(expr, {"_line": "'abc\\\n", "_ep": ()}))
+        chk.require(not bad and not off, "K6-continuation", "in_continued_string", f.where,
+                    f"a one-quote string continues on the next line exactly when its line ends in backslash + LF or backslash + CRLF "
+                    f"(and a string is open); the test gives {bad or 'True with no open string'}")
+    sp = F.need("SearchPath")
+    an = rx.Analysis({"sp": sp}, exhaustive=thorough)
+    pf = an.witness_not_prefix_free("sp")
+    chk.count("K6-continuation")
+    chk.require(pf is None, "K6-continuation", "SearchPath:unique-end", repo.TOKENIZE,
+                f"the search-path pattern can end at two places ({pf}): an escaped backtick inside the path ends the token early")
+
+
 def rule_k4(chk: Check, F, ix: Index):
     chk.count("K4-indentation")
     chk.require(F.need("tabsize") == pytokenize.tabsize == 8, "K4-indentation", "tabsize", repo.TOKENIZE,
@@ -270,6 +308,7 @@ def run(chk: Check):
     rule_k3(chk, F, ir, thorough)
     rule_k4(chk, F, ix)
     rule_k5(chk, F, ix)
+    rule_k6(chk, F, ix, thorough)
     chk.floor("K1-sublanguage", 3)
     chk.floor("K1-string-body", 5)
     chk.floor("K3-non-interference", 10)
